@@ -30,7 +30,7 @@ def _c06_extra(results):
             alive += sum(1 for x in o if x == "alive")
     return {"udp_datagrams_in_process": dgs, "udp_outcomes": kinds, "tcp_connections": tcp, "tcp_outcomes": tcpk,
             "MEASUREMENT_udpserver_streams": udpsrv, "MEASUREMENT_udpserver_alive_after_datagram": alive,
-            "note": "the udpsrv stream (real udpserver on 127.0.0.1, thorough tier) is a liveness measurement, not a proof obligation"}
+            "note": "the udpsrv stream (real udpserver on 127.0.0.1, thorough tier) is a liveness measurement plus a per-datagram reply comparison with the model, not a proof obligation"}
 
 
 CFG = {
@@ -77,7 +77,9 @@ CFG = {
             "nothing, random bytes 0..2048, valid requests, length-prefix lies (+-1, +-256, 0, 65535), truncation at EVERY offset, "
             "missing terminators, bad option masks, oversize field lists - outcome class (reply length on an empty registry) compared "
             "with BrowserReq06; oracle: no panic, store dump unchanged.  Thorough tier adds a MEASUREMENT: malformed streams through "
-            "the real udpserver on 127.0.0.1, an `available` request must be answered after every datagram; non-trivial = non-empty payload",
+            "the real udpserver on 127.0.0.1, an `available` request must be answered after every datagram, and the replies received per datagram "
+            "must be exactly the model's (Heartbeat.dispatch from 127.0.0.1:<client port>): at most one per datagram, none for a datagram the model "
+            "leaves unanswered; non-trivial = non-empty payload",
     "assumptions": [
         "udpserver only hands datagrams with n > 0 bytes to the dispatcher (pkg/udp/udpserver/server.go); udp_empty_panics shows the guard is needed",
         "healthy storage. TCP: BrowserReq06.handle (what the differential stream compares with the code) covers browsing.NewRequest only; "
@@ -93,8 +95,11 @@ CFG = {
         "'returns promptly' and 'the process keeps running' are run-time facts: measured (udpsrv stream, TCP deadlines), not proved",
         "'sends at most one reply' is NOT a proof obligation: the model's Outcome/TcpOutcome types cannot express two replies, so "
         "at_most_one_reply/tcp_at_most_one_reply hold for any function and were removed from the audited list; the clause is covered by the "
-        "harness only (udpsrv stream counts reply datagrams on a real socket, oracle replies <= datagrams; in-process the single response "
-        "slice and for TCP the total bytes written are compared with the model)",
+        "harness only (udpsrv stream: the harness lists, per datagram sent to the real udpserver, the reply datagrams received on the client "
+        "socket in that datagram's window; oracle Drv/C06.handleUdpSrv: every reply received is the one reply Heartbeat.dispatch gives a datagram "
+        "sent so far and not yet answered (source 127.0.0.1:<client port>, payload cut at the 2048-byte read buffer) - never early, repeated or "
+        "different - and every expected reply arrives; a reply that arrives LATE, in a later datagram's window, is tolerated because handlers run on "
+        "their own goroutines; in-process the single response slice and for TCP the total bytes written are compared with the model)",
         "'well-formed' is ReporterSpec.decode? (independent strict decoder) up to three documented parser leniencies (ReporterSpec.Quirk: "
         "keepalive with trailing bytes, heartbeat whose last string lacks its NUL, unknown strings not in name/value pairs); "
         "malformed_no_effect is definitional (WellFormedMutating is defined from the model: 'reaches a use case and is not answered err'); "
@@ -102,6 +107,11 @@ CFG = {
         "the REST port is parsed by net/http + gin (Recovery installed); no repo code below the handlers to model - see C17",
     ],
     "trusted_base": COMMON_TRUSTED + [
+        "driver-implemented oracle semantics in lean/Swat4/Drv/C06.lean (not Model/ or Spec/ definitions): `reaches` (copy of C06.reachesUseCase), "
+        "`oracleStep` / `oracle` (hist: no panic, state unchanged unless the datagram reaches a use case and is not answered err), `handleTcp` (no panic, "
+        "connection closed, store unchanged), `handleStall`, and `handleUdpSrv` with `udpBufferSize` = 2048 (the per-datagram matching of received replies "
+        "against Model Heartbeat.dispatch run from 127.0.0.1:<client port> over the datagrams cut at the read buffer; attribution of a reply to a datagram "
+        "is by the harness's receive window, harness/internal/c06/c06.go runUDPServer)",
         "generated Facts.lean section `reporter` (message bytes, whitelists, MinRequestPayloadLength, MaxAllowedNumberOfFields)",
         "the inventory of partial operations modelled. UDP (Model/HeartbeatChecked.lean): payload[0] (twice: Handle's log line, dispatch); "
         "payload[1:5], payload[5:] (guarded by len<5); unparsed[0] in the loop condition and in the missing-value test of parseHeartbeatParams "
